@@ -8,6 +8,7 @@ def rxc(pattern_string):
 
 
 onlyincluderx = rxc(r"<onlyinclude>(.*?)</onlyinclude>")
+onlyinclude_end_rx = rxc(r"</onlyinclude>")
 noincluderx = rxc(r"<noinclude(?:\s[^<>]*)?>.*?(</noinclude>|$)")
 includeonlyrx = rxc(r"<includeonly(?:\s[^<>]*)?>.*?(?:</includeonly>|$)")
 
@@ -27,7 +28,12 @@ def preprocess(txt, included=True):
         if "<onlyinclude>" in txt:
             # if onlyinclude tags are used, only use text between those tags.
             # template 'legend' is a example
-            txt = "".join(onlyincluderx.findall(txt))
+            # only look at the text up to the last closing tag: an opening tag behind it can never
+            # match, and findall would scan to the end of the text once for each of them
+            end = 0
+            for end_match in onlyinclude_end_rx.finditer(txt):
+                end = end_match.end()
+            txt = "".join(onlyincluderx.findall(txt[:end]))
     else:
         txt = includeonlyrx.sub("", txt)
         txt = remove_not_included(txt)
